@@ -13,8 +13,12 @@ import traceback
 from . import tlc
 
 ROOT = os.path.dirname(os.path.dirname(os.path.dirname(os.path.abspath(__file__))))   # /verif
-EVIDENCE_DIR = os.path.join(ROOT, "evidence")
-REPLAY_DIR = os.path.join(ROOT, "replays")
+# evidence/ and replays/ describe runs against /repo's working tree; a run against another tree (PV_REPO=<scratch worktree>, used to
+# try the checks on seeded changes) writes to a scratch directory instead, so that it can never be mistaken for evidence
+_OTHER_TREE = os.path.realpath(os.environ.get("PV_REPO", "/repo")) != os.path.realpath("/repo")
+_SCRATCH = os.path.join("/tmp", "pv_other_tree", os.path.basename(os.path.realpath(os.environ.get("PV_REPO", "/repo"))))
+EVIDENCE_DIR = os.path.join(_SCRATCH, "evidence") if _OTHER_TREE else os.path.join(ROOT, "evidence")
+REPLAY_DIR = os.path.join(_SCRATCH, "replays") if _OTHER_TREE else os.path.join(ROOT, "replays")
 KNOWN_FILE = os.path.join(ROOT, "known_findings.json")
 
 
